@@ -122,6 +122,11 @@ func timerCmd(w *bufio.Writer, seed int64, n int) {
 				}
 				extend(e)
 				read2 := rng.Intn(2) == 0
+				if rng.Intn(2) == 0 { // the extended deadline stays in the past: the overdue expiry must still be delivered
+					read()
+					sleep(ms(20))
+					read()
+				}
 				extend(ms(30 + rng.Intn(30)))
 				read()
 				if read2 {
